@@ -18,6 +18,7 @@ from . import source, verify, lemmas, scans          # noqa: E402
 from .api import SPECS                               # noqa: E402
 
 ROOT = source.ROOT
+OUT = os.environ.get('PYVC_OUT', HERE)     # where evidence/ and replays/ are written (scratch runs redirect it)
 _TABLE = None
 
 
@@ -99,7 +100,7 @@ def match_known(known, pid, r):
 
 # --------------------------------------------------------------------------- replay
 def write_replay(pid, r):
-    d = os.path.join(HERE, 'replays', pid)
+    d = os.path.join(OUT, 'replays', pid)
     os.makedirs(d, exist_ok=True)
     sig = hashlib.sha1(('|'.join(r.get('path', []))).encode()).hexdigest()[:8]
     path = os.path.join(d, f"{r['name'].replace('/', '_')}-{sig}.json")
@@ -284,7 +285,7 @@ def write_evidence(pid, tier, results, functions, loops, notes, canaries, solver
         'violations': len(vio_records),
         'violation_records': vio_records,
     }
-    d = os.path.join(HERE, 'evidence')
+    d = os.path.join(OUT, 'evidence')
     os.makedirs(d, exist_ok=True)
     with open(os.path.join(d, f'{pid}.json'), 'w') as f:
         json.dump(ev, f, indent=1, default=str)
